@@ -21,8 +21,8 @@ def run(ck):
     systems = [tickcheck.system_from_behaviour(b) for b in lost + ok]
     cases, out = tickcheck.run_and_monitor(ck, "model-scripts", systems=systems)
     ck.cov["distinct_nontrivial"] += sum(1 for s in systems if sum(1 for c in s["comps"] for acts in c["script"] for a in acts if a["op"] == "send") >= 2)
-    tickcheck.report_cases(ck, cases, {"C10"}, "model-scripts")
+    tickcheck.report_cases(ck, cases, {"C10", "C09"}, "model-scripts")
     cases, out = tickcheck.run_and_monitor(ck, "stress", stress=40 if q else 1000, max_msgs=300 if q else 2000, random=100 if q else 2000, max_comps=5)
     ck.cov["distinct_nontrivial"] += out["systems"]
-    tickcheck.report_cases(ck, cases, {"C10"}, "stress")
+    tickcheck.report_cases(ck, cases, {"C10", "C09"}, "stress")
     ck.cov["exhaustive"] = True
